@@ -42,9 +42,13 @@ CHECKS["C09"] = dict(
           "is_closed, is_manifold, is_oriented, has_free_vertices each iff their combinatorial definition; vertex_degrees = number of "
           "distinct neighbours; euler = V - E + F with E the number of undirected edges; edges() on oriented meshes lists every inner "
           "edge (i<j, in exactly two triangles) once with triangles carrying its two half-edges. boundary_loops (fuelled model of "
-          "the CSC walk) is modelled and, like the others, tied by exact correspondence over all 4-vertex and (thorough) all 58 848 "
-          "five-vertex complexes plus structured families, with brute-force oracles; no theorem for the loop walk (partial)."),
-    design="6/C09", technique="Coq proof (counting lemmas over key lists) + exhaustive small-complex correspondence via vm_compute")
+          "the CSC walk): the table it walks is exactly the set of boundary half-edges; on every manifold, open, oriented mesh whose "
+          "boundary half-edges form a permutation of the boundary vertices the walk terminates within its fuel and returns simple "
+          "cycles that together use every boundary half-edge exactly once; closed -> [], non-manifold / unoriented -> ValueError. "
+          "All queries are tied to the code by exact correspondence over all 4-vertex and (thorough) all 58 848 five-vertex "
+          "complexes plus structured families, with brute-force oracles. Not proved: that one outgoing boundary edge per boundary "
+          "vertex implies one incoming one (the permutation hypothesis is stated directly)."),
+    design="6/C09", technique="Coq proof (counting lemmas over key lists, cycle-walk invariant) + exhaustive small-complex correspondence via vm_compute")
 
 CHECKS["C10"] = dict(
     text=("Theorems about the Gallina model of orient_ (half-edge table, unique-with-counts test, lexsort pairing, signed neighbour "
